@@ -16,6 +16,7 @@ CONSTANTS
  DevLeaseCheckSkipped = FALSE
  DevFetchAclOnRequestName = FALSE
  DevStaleOwnedOnSessionReplace = TRUE
+ DevLeaseErrMisindexed = FALSE
 INIT Init
 NEXT Next
 INVARIANTS C19_AckOnlyIfHeld C19_NoWriteUnlessHeld C19_RefusalCode C19_NotLeaderForOtherOwner
